@@ -60,6 +60,7 @@ Proof.
   - unfold set_header. constructor; cbn; auto.
   - unfold del_header. destruct (kv_del k (b_kvs c)); constructor; cbn; auto.
   - unfold set_data. constructor; cbn; auto.
+  - unfold rewrite_in_place. destruct (b_raw c) as [[raw|i j]|]; [destruct (negb (b_cchanged c) && _)| |]; constructor; cbn; auto.
 Qed.
 Lemma apply_ops_wf ops : forall c, cmd_wf c -> cmd_wf (fold_left apply_op ops c).
 Proof. induction ops as [|o r IH]; intros c H; [exact H|]. cbn [fold_left]. apply IH, apply_op_wf, H. Qed.
@@ -129,22 +130,28 @@ Proof. reflexivity. Qed.
 Definition raw_private (c : bolt_cmd) : Prop := match b_raw c with Some (Alias _ _) => False | _ => True end.
 Lemma encode_mem_indep echk mem mem' c : raw_private c -> bolt_encode_sw echk mem c = bolt_encode_sw echk mem' c.
 Proof. unfold raw_private, bolt_encode_sw. destruct (b_raw c) as [[r|i j]|]; [reflexivity|contradiction|reflexivity]. Qed.
-Lemma apply_op_raw c o : b_raw (apply_op c o) = b_raw c.
-Proof. destruct o; cbn [apply_op]; try reflexivity. unfold del_header. destruct (kv_del k (b_kvs c)); reflexivity. Qed.
-Lemma apply_ops_raw ops : forall c, b_raw (fold_left apply_op ops c) = b_raw c.
-Proof. induction ops as [|o r IH]; intros c; [reflexivity|]. cbn [fold_left]. now rewrite IH, apply_op_raw. Qed.
+Lemma apply_op_private c o : raw_private c -> raw_private (apply_op c o).
+Proof.
+  unfold raw_private. destruct o; cbn [apply_op]; try (intros H; exact H).
+  - unfold del_header. destruct (kv_del k (b_kvs c)); intros H; exact H.
+  - unfold rewrite_in_place. destruct (b_raw c) as [[raw|i j]|] eqn:E; [destruct (negb (b_cchanged c) && _)| |]; cbn; try rewrite E; auto.
+Qed.
+Lemma apply_ops_private ops : forall c, raw_private c -> raw_private (fold_left apply_op ops c).
+Proof. induction ops as [|o r IH]; intros c H; [exact H|]. cbn [fold_left]. apply IH, apply_op_private, H. Qed.
+Lemma raw_private_of r c : b_raw c = Some (Private r) -> raw_private c.
+Proof. intros H. unfold raw_private. now rewrite H. Qed.
 
 Theorem bolt_buffer_independence : forall v c n ops mem mem', res (bolt_decode v) = Ok (c, n) ->
   bolt_encode mem (fold_left apply_op ops c) = bolt_encode mem' (fold_left apply_op ops c).
 Proof.
   intros v c n ops mem mem' H. unfold bolt_decode in H. rewrite sw_res in H. apply sw_pure_raw in H. destruct H as [Hr _].
-  apply encode_mem_indep. unfold raw_private. now rewrite apply_ops_raw, Hr.
+  apply encode_mem_indep. apply apply_ops_private. eapply raw_private_of; eauto.
 Qed.
 Theorem boltv2_buffer_independence : forall v c n ops mem mem', res (boltv2_decode v) = Ok (c, n) ->
   bolt_encode mem (fold_left apply_op ops c) = bolt_encode mem' (fold_left apply_op ops c).
 Proof.
   intros v c n ops mem mem' H. unfold boltv2_decode in H. rewrite sw2_res in H. apply sw2_pure_raw in H. destruct H as [Hr _].
-  apply encode_mem_indep. unfold raw_private. now rewrite apply_ops_raw, Hr.
+  apply encode_mem_indep. apply apply_ops_private. eapply raw_private_of; eauto.
 Qed.
 
 (* ---- slow path: fields read back from the encoded fixed header ------------------------------------------ *)
@@ -383,7 +390,7 @@ Proof.
   intros v c n ops mem H c' Hch. unfold bolt_decode in H. rewrite sw_res in H.
   pose proof (sw_pure_wf _ _ _ _ H) as W. pose proof (sw_pure_raw _ _ _ _ H) as [Hr _].
   assert (W' : cmd_wf c') by (apply apply_ops_wf, W).
-  assert (P' : raw_private c') by (unfold raw_private, c'; now rewrite apply_ops_raw, Hr).
+  assert (P' : raw_private c') by (apply apply_ops_private; eapply raw_private_of; eauto).
   pose proof (slow_path_roundtrip mem c' W' (or_intror Hch) P') as R.
   unfold bolt_encode. change bolt_enc_checked with true.
   destruct (bolt_encode_sw true mem c') as [out c''|]; [|exact R].
@@ -403,7 +410,7 @@ Proof.
   intros v c n ops mem H c' Hch. unfold boltv2_decode in H. rewrite sw2_res in H.
   pose proof (sw2_pure_wf _ _ _ _ H) as W. pose proof (sw2_pure_raw _ _ _ _ H) as [Hr _].
   assert (W' : cmd_wf c') by (apply apply_ops_wf, W).
-  assert (P' : raw_private c') by (unfold raw_private, c'; now rewrite apply_ops_raw, Hr).
+  assert (P' : raw_private c') by (apply apply_ops_private; eapply raw_private_of; eauto).
   pose proof (slow_path_roundtrip mem c' W' (or_intror Hch) P') as R.
   unfold bolt_encode. change bolt_enc_checked with true.
   destruct (bolt_encode_sw true mem c') as [out c''|]; [|exact R].
@@ -421,3 +428,50 @@ Lemma unchecked_slow_inconsistent :
   | EncErr => False
   end.
 Proof. vm_compute. split; reflexivity. Qed.
+
+(* ---- body rewritten in place with the same length, nothing else changed: the fast path returns the received frame with
+   exactly the content bytes and the request id replaced (all length fields are the received ones, and they are still true) *)
+Lemma bolt_pure_lens chk L ow b c n : bolt_pure chk L ow b = Ok (c, n) ->
+  b_classlen c = fld b (l_class L) /\ b_headerlen c = fld b (l_header L) /\ blen (b_content c) = fld b (l_content L) /\
+  n = l_hlen L + fld b (l_class L) + fld b (l_header L) + fld b (l_content L).
+Proof.
+  intros H. pose proof (bolt_pure_ok _ _ _ _ _ _ H) as [Hn [Hh Hb]]. unfold frame_len in Hn.
+  unfold bolt_pure in H. destruct (blen b <? _); [discriminate|]. destruct (blen b <? _) eqn:E2; [discriminate|]. cbv zeta in H.
+  destruct (fst (if 0 <? fld b (l_header L) then _ else _)); inversion H; subst; cbn [b_classlen b_headerlen b_content];
+    (repeat split; try reflexivity;
+     destruct (0 <? fld b (l_content L)) eqn:E0; [rewrite sub_length; [lia|lia|rewrite sub_length; lia]|cbn; lia]).
+Qed.
+
+Theorem in_place_same_length_generic echk mem c raw id d :
+  b_raw c = Some (Private raw) -> b_hchanged c = false -> b_cchanged c = false -> blen d = blen (b_content c) ->
+  exists c', bolt_encode_sw echk mem (set_request_id id (rewrite_in_place d c)) =
+             EncOk (patch (patch raw (content_index c) d) (reqid_off c) (be_enc 4 (id mod 4294967296))) c'.
+Proof.
+  intros Hr Hh Hc Hl. unfold rewrite_in_place. rewrite Hr. rewrite Hc. cbn [negb andb]. rewrite Hl, N.eqb_refl.
+  unfold bolt_encode_sw, set_request_id. cbn [upd b_raw b_hchanged b_cchanged b_v2 b_resp b_reqid].
+  rewrite ?Hh, ?Hc. cbn [negb andb deref]. eexists. reflexivity.
+Qed.
+
+Theorem bolt_in_place_same_length : forall v c n id d mem, res (bolt_decode v) = Ok (c, n) ->
+  blen d = blen (b_content c) ->
+  exists c', bolt_encode mem (set_request_id id (rewrite_in_place d c)) =
+             EncOk (patch (patch (takeN n (vb v)) (content_index c) d) (reqid_off c) (be_enc 4 (id mod 4294967296))) c'.
+Proof.
+  intros v c n id d mem H Hl. unfold bolt_decode in H. rewrite sw_res in H. apply sw_pure_raw in H.
+  destruct H as [Hr [Hh Hc]]. rewrite sub_0 in Hr. now apply in_place_same_length_generic.
+Qed.
+Theorem boltv2_in_place_same_length : forall v c n id d mem, res (boltv2_decode v) = Ok (c, n) ->
+  blen d = blen (b_content c) ->
+  exists c', bolt_encode mem (set_request_id id (rewrite_in_place d c)) =
+             EncOk (patch (patch (takeN n (vb v)) (content_index c) d) (reqid_off c) (be_enc 4 (id mod 4294967296))) c'.
+Proof.
+  intros v c n id d mem H Hl. unfold boltv2_decode in H. rewrite sw2_res in H. apply sw2_pure_raw in H.
+  destruct H as [Hr [Hh Hc]]. rewrite sub_0 in Hr. now apply in_place_same_length_generic.
+Qed.
+(* a rewrite of another length flags the content changed: it is covered by the modify round trip *)
+Lemma rewrite_other_length_changes c raw d : b_raw c = Some (Private raw) -> blen d <> blen (b_content c) ->
+  b_cchanged (rewrite_in_place d c) = true /\ b_content (rewrite_in_place d c) = d.
+Proof.
+  intros Hr Hl. unfold rewrite_in_place. rewrite Hr.
+  replace (blen d =? blen (b_content c)) with false by lia. rewrite andb_false_r. split; reflexivity.
+Qed.
